@@ -106,6 +106,7 @@ pub fn generate(seed: u64) -> C19Scn {
         allow_other: true,
         allow_skip: true,
         tl_eighths: 5,
+        crlf_eighths: 1,
         large_inputs: true,
         default_config_eighths: 4,
     };
